@@ -516,7 +516,9 @@ class SoupStrainer(ElementFilter):
                 # )
                 # print(f"Testing <{tag.name} {attrs}>{tag.string}</{tag.name}> against {rule}")
                 if rule.matches_tag(tag) or (
-                    prefixed_name is not None and rule.matches_string(prefixed_name)
+                    prefixed_name is not None
+                    and rule.function is None
+                    and rule.matches_string(prefixed_name)
                 ):
                     name_matches = True
                     break
